@@ -744,6 +744,15 @@ func writeEvidence(prop string, tier int, seed int64, reports []harnessReport, f
 			assumptions = append(assumptions, h.Fn+": stub "+s)
 		}
 	}
+	if notDischarged == nil {
+		notDischarged = []string{}
+	}
+	if engineErrors == nil {
+		engineErrors = []string{}
+	}
+	if knownLines == nil {
+		knownLines = []string{}
+	}
 	var fnList []string
 	for k, v := range fns {
 		fnList = append(fnList, fmt.Sprintf("%s (%d calls)", k, v))
